@@ -140,6 +140,10 @@ func (dt DateTime) ToProtoDateTime() *dtpb.DateTime {
 	switch dt.l {
 	case dtMillisecondLayoutTZ, dtMillisecondLayout:
 		p = dtpb.DateTime_MILLISECOND
+		if dt.dateTime.Nanosecond()%1000000 != 0 {
+			// the value carries digits finer than a millisecond: the element can represent them
+			p = dtpb.DateTime_MICROSECOND
+		}
 	case dtSecondLayoutTZ, dtSecondLayout:
 		p = dtpb.DateTime_SECOND
 	case dtDayLayout:
